@@ -50,6 +50,11 @@ pub struct Sc {
     /// control characters, quote and backslash, non-ASCII
     #[serde(default)]
     pub note: u8,
+    /// a delegated role in every state (0 = none): 1 = named `d1`; 2 = named `timestamp`, 3 = named
+    /// `snapshot` (legal under consistent snapshots, where its file is `7.timestamp.json`; without
+    /// consistent snapshots these two fall back to `d1`). Its version is 7 in every state.
+    #[serde(default)]
+    pub deleg: u8,
 }
 
 pub struct C03;
@@ -91,7 +96,7 @@ pub struct State {
 }
 
 /// Files of one repository state, signed with the keys the given root authorises.
-pub fn build_state(world: u64, consistent: bool, roots: &[RootEp], c: &Cycle, note: u8) -> Files {
+pub fn build_state(world: u64, consistent: bool, roots: &[RootEp], c: &Cycle, note: u8, deleg: u8) -> Files {
     let root = root_spec(world, consistent, roots, c.root_epoch);
     let mut files = Files::new();
     for i in 0..=c.root_epoch {
@@ -99,9 +104,23 @@ pub fn build_state(world: u64, consistent: bool, roots: &[RootEp], c: &Cycle, no
         let d = Doc::signed_by(r.signed(), &[keys::ed(world, 1)]);
         files.meta.insert(format!("{}.root.json", i + 1), d.bytes());
     }
-    let tg = sign_threshold(with_note(targets_signed(c.tg_v, FAR, &[], None), note), &root.targets);
+    let dname = match (deleg, consistent) {
+        (0, _) => None,
+        (2, true) => Some("timestamp"),
+        (3, true) => Some("snapshot"),
+        _ => Some("d1"),
+    };
+    let kd = keys::ed(world, 77);
+    let delegs: Vec<DelegSpec> = dname.iter().map(|n| DelegSpec { name: (*n).to_string(), keys: RoleKeys::one(&kd), paths: Paths::Globs(vec!["zz/*".into()]), terminating: false }).collect();
+    let tg = sign_threshold(with_note(targets_signed(c.tg_v, FAR, &[], if delegs.is_empty() { None } else { Some(&delegs) }), note), &root.targets);
     let tgb = tg.bytes();
     let mut metas = Vec::new();
+    if let Some(n) = dname {
+        let d = Doc::signed_by(targets_signed(7, FAR, &[], None), &[kd.clone()]);
+        let db = d.bytes();
+        metas.push((format!("{n}.json"), Meta::of(7, &db, true, false)));
+        files.meta.insert(if consistent { format!("7.{n}.json") } else { format!("{n}.json") }, db);
+    }
     if !c.drop_listing {
         // when the listed version differs from the file the snapshot cannot pin its digest
         let m = if c.listed_v == c.tg_v { Meta::of(c.listed_v, &tgb, true, true) } else { Meta { version: c.listed_v, length: None, sha256: None } };
@@ -171,7 +190,7 @@ impl Check for C03 {
         "C03"
     }
     fn rule(&self) -> String {
-        "history of 2..4 update cycles on one datastore; per cycle (timestamp, snapshot, targets, snapshot-listed targets) versions drawn independently from 1..3, all genuinely signed; 1..4 root versions whose timestamp/snapshot/targets key sets or thresholds change (incl. rotate-and-rotate-back); shipped root older than or equal to the newest; consistent snapshots on/off; in a third of the histories every document carries an unknown member whose string holds control characters, quotes, backslashes or non-ASCII (what is stored must read back); non-trivial = some cycle ran with a stored file of an earlier cycle in the datastore and served a version different from it; distinct = distinct canonical trace".into()
+        "history of 2..4 update cycles on one datastore; per cycle (timestamp, snapshot, targets, snapshot-listed targets) versions drawn independently from 1..3, all genuinely signed; 1..4 root versions whose timestamp/snapshot/targets key sets or thresholds change (incl. rotate-and-rotate-back); shipped root older than or equal to the newest; consistent snapshots on/off; in a third of the histories every document carries an unknown member whose string holds control characters, quotes, backslashes or non-ASCII (what is stored must read back); a third carry a delegated role, under consistent snapshots possibly named like a top-level role (`timestamp`, `snapshot`: file `7.timestamp.json`); non-trivial = some cycle ran with a stored file of an earlier cycle in the datastore and served a version different from it; distinct = distinct canonical trace".into()
     }
     fn assumptions(&self) -> Vec<String> {
         vec![
@@ -250,7 +269,8 @@ impl Check for C03 {
             });
         }
         let note = if r.chance(1, 3) { 1 + r.below(4) as u8 } else { 0 };
-        Sc { world: r.below(1_000_003), consistent: r.chance(1, 2), roots, cycles, note }
+        let deleg = if r.chance(1, 3) { 1 + r.below(3) as u8 } else { 0 };
+        Sc { world: r.below(1_000_003), consistent: r.chance(1, 2), roots, cycles, note, deleg }
     }
     fn shrink(&self, sc: &Sc) -> Vec<Sc> {
         let mut v = Vec::new();
@@ -266,6 +286,9 @@ impl Check for C03 {
         }
         if sc.note != 0 {
             v.push(Sc { note: 0, ..sc.clone() });
+        }
+        if sc.deleg != 0 {
+            v.push(Sc { deleg: 0, ..sc.clone() });
         }
         // collapse root epochs: everyone uses epoch 0
         if sc.roots.len() > 1 {
@@ -322,14 +345,14 @@ impl Check for C03 {
         let scratch = Scratch::new();
         let ds = scratch.dir("datastore");
         world::set_clock(Some(T0));
-        o.ev(format!("cfg consistent={} note={} roots={:?}", sc.consistent, sc.note, sc.roots));
+        o.ev(format!("cfg consistent={} note={} deleg={} roots={:?}", sc.consistent, sc.note, sc.deleg, sc.roots));
         // (cycle index, final root epoch, versions) of successful cycles
         let mut trusted: Vec<(usize, usize, Seen)> = Vec::new();
         let mut seen = Seen { ts: 0, snap: 0, tg: 0, listed: 0 };
         let mut failed_before = false;
         let mut any_replay = false;
         for (ci, c) in sc.cycles.iter().enumerate() {
-            let files = build_state(sc.world, sc.consistent, &sc.roots, c, sc.note);
+            let files = build_state(sc.world, sc.consistent, &sc.roots, c, sc.note, sc.deleg);
             let shipped = files.meta.get(&format!("{}.root.json", c.shipped + 1)).cloned().unwrap();
             let meta = files.meta.clone();
             let transport = SimTransport::new(move |r| {
